@@ -1,6 +1,7 @@
 (* C14 — items decode independently of what follows them: CBOR sequences work.
    Statements only; proofs in theories/PLoad_proofs.v, PRound_proofs.v, PFinal.v. *)
-From CB Require Import Word PStream PItem SpecItem PBuild SpecParse PLoad_proofs PRound_proofs PFinal.
+From CB Require Import Word PStream PItem SpecItem PBuild SpecParse PLoad_proofs PRound_proofs PFinal Bridge_inventory.
+From CBGen Require Import Gen_inventory.
 Local Open Scope N_scope.
 
 (* for every acceptable x and every y: decoding x ++ y yields the same tree and the same
@@ -22,3 +23,10 @@ Example C14_example :
   load_seq 2048 (2^20) 3 [0x01; 0x82; 0x02; 0x03; 0x61; 0x61] =
   Some ([IUint I8 1; IArray false [IUint I8 2; IUint I8 3]; IText [0x61]], []).
 Proof. vm_compute. reflexivity. Qed.
+
+(* the models compute every offset and count in 64 bits; so does the code: no implicit conversion
+   from a 64-bit type to a narrower one exists in any .c file (AST inventory of this run) *)
+Theorem C14_no_narrowing_from_64 : forallb (fun g => let '(_, _, from, _, _) := g in from <? 64) gen_narrowing = true.
+Proof. exact bridge_no_narrowing_from_64. Qed.
+Theorem C14_field_widths : forallb field_is_64 required_fields = true.
+Proof. exact bridge_field_widths. Qed.
